@@ -20,7 +20,9 @@ package cx1kit
 
 import (
 	"context"
+	"encoding/json"
 	"fmt"
+	"os"
 	"sort"
 	"strconv"
 	"strings"
@@ -320,3 +322,55 @@ func SortedKeys(m map[string]any) []string {
 	sort.Strings(ks)
 	return ks
 }
+
+// TraceLog writes the same NDJSON as verifkit.TraceWriter, but one unbuffered
+// write per line: when the real code dies with a fatal error in the middle of
+// a concurrent run (e.g. "concurrent map writes"), the file still consists of
+// whole lines and the part recorded so far can be validated.
+type TraceLog struct {
+	mu     sync.Mutex
+	f      *os.File
+	seq    int
+	Traces int
+	Events int
+}
+
+func NewTraceLog(path string) (*TraceLog, error) {
+	f, err := os.Create(path)
+	if err != nil {
+		return nil, err
+	}
+	return &TraceLog{f: f}, nil
+}
+
+func (t *TraceLog) line(m map[string]any) {
+	b, err := json.Marshal(m)
+	if err != nil {
+		panic(err)
+	}
+	t.f.Write(append(b, '\n'))
+}
+
+// Reset starts a new trace.
+func (t *TraceLog) Reset() {
+	t.mu.Lock()
+	defer t.mu.Unlock()
+	t.seq = 0
+	t.Traces++
+	t.line(map[string]any{"event": "reset"})
+}
+
+// Emit appends one event; the order of the lines is the order in which Emit calls took the lock.
+func (t *TraceLog) Emit(event string, fields map[string]any) {
+	t.mu.Lock()
+	defer t.mu.Unlock()
+	t.seq++
+	t.Events++
+	m := map[string]any{"event": event, "seq": t.seq}
+	for k, v := range fields {
+		m[k] = v
+	}
+	t.line(m)
+}
+
+func (t *TraceLog) Close() error { return t.f.Close() }
